@@ -164,32 +164,48 @@ def run(ctx):
         ctx.report(M3, pb, pb['body'], 'ProductToBus40 source', 'the 33-bit product is not p[unit] | pe[unit] << 32 shifted by ps[unit]')
     dm = ctx.fn(I + 'DoMultiplication(unsigned int,bool,bool)')
     ctx.inst(M3)
-    rd = Renderer(dm, inline_locals=False)
-    t = rd.s(dm['body'])
+    from .. import summ, boolform
+    A, N, allf, anyf = boolform.A, boolform.neg, boolform.all_of, boolform.any_of
+    SM = summ.summary(ctx, dm, asserts='ignore')
     H = '(. f:Teakra::Interpreter::regs %s::hwm)' % RS
-    want1 = '(if (|| (&& (== $0 0) (== %s 3)) (== %s 1)) {(>>= l:y 8)} else (if (|| (&& (== $0 1) (== %s 3)) (== %s 2)) {(&= l:y 255)}))' % (H, H, H, H)
-    norm_t = t.replace('(== 0 $0)', '(== $0 0)').replace('(== 1 $0)', '(== $0 1)').replace('(== 3 %s)' % H, '(== %s 3)' % H).replace('(== 1 %s)' % H, '(== %s 1)' % H).replace('(== 2 %s)' % H, '(== %s 2)' % H)
-    import re
-    ok = bool(re.search(r'\(>>= l:y 8\)', norm_t)) and bool(re.search(r'\(&= l:y 255\)', norm_t)) and \
-        '(= ([] (. f:Teakra::Interpreter::regs %s::p) $0) (* l:x l:y))' % RS in t and \
-        '(if $1 (= l:x (call SignExtend<16U, unsigned int> l:x)))' in t and '(if $2 (= l:y (call SignExtend<16U, unsigned int> l:y)))' in t
-    # hwm codes: 1 -> high byte, 2 -> low byte, 3 -> unit 0 high / unit 1 low
-    from ..guards import guards_at
-    for node, want in ((('>>=', 8), {(1, None), (3, 0)}), (('&=', 255), {(2, None), (3, 1)})):
-        tgt = [x for x in walk(dm['body']) if x.get('k') == 'assign' and x.get('op') == node[0] and const_value(x.get('rhs')) == node[1]]
-        if len(tgt) != 1:
-            ok = False
-            continue
-        g = guards_at(dm['body'], tgt[0])
-        conds = [rd.r(c) for c, pol, s in g if pol]
-        modes = set()
-        for c in conds:
-            for m in re.finditer(r'\(== (?:%s (\d)|(\d) %s)\)' % (re.escape(H), re.escape(H)), c):
-                modes.add(int(m.group(1) or m.group(2)))
-        if modes != {w[0] for w in want}:
-            ok = False
+
+    def eq(x, c):
+        if c == 0:
+            return N(A(x))          # canonical form of x == 0
+        return A('(== %s %s)' % tuple(sorted([x, str(c)])))
+    HI = anyf(eq(H, 1), allf(eq(H, 3), eq('$0', 0)))
+    LO = allf(N(HI), anyf(eq(H, 2), allf(eq(H, 3), eq('$0', 1))))
+    FULL = allf(N(HI), N(LO))
+    X0 = '([] (. f:Teakra::Interpreter::regs %s::x) $0)' % RS
+    Y0 = '([] (. f:Teakra::Interpreter::regs %s::y) $0)' % RS
+    P0 = '([] (. f:Teakra::Interpreter::regs %s::p) $0)' % RS
+    PE0 = '([] (. f:Teakra::Interpreter::regs %s::pe) $0)' % RS
+
+    def sx(v):
+        return '(call SignExtend<16U, unsigned int> %s)' % v
+    want = {}
+    for ysel, yv in ((HI, '(>> %s 8)' % Y0), (LO, '(& %s)' % ' '.join(sorted([Y0, '255']))), (FULL, Y0)):
+        for xs in (True, False):
+            for ys in (True, False):
+                val = '(* %s)' % ' '.join(sorted([sx(X0) if xs else X0, sx(yv) if ys else yv]))
+                c = allf(ysel, A('$1') if xs else N(A('$1')), A('$2') if ys else N(A('$2')))
+                want[val] = anyf(want.get(val, boolform.F_), c)
+    got = {}
+    pe = {}
+    for e, c in SM.effect_conditions(lambda e: e[0] == 'write').items():
+        if e[1] == P0 and e[2] == '=':
+            got[e[3]] = anyf(got.get(e[3], boolform.F_), c)
+        elif e[1] == PE0 and e[2] == '=':
+            key = '0' if e[3] == '0' else ('p>>31' if e[3].startswith('(>> ') and e[3].endswith(' 31)') else e[3])
+            pe[key] = anyf(pe.get(key, boolform.F_), c)
+        else:
+            got['<write to %s>' % e[1][-40:]] = c
+    ok = set(got) == set(want) and all(boolform.equivalent(got[k], want[k]) is True for k in want)
+    signed = anyf(A('$1'), A('$2'))
+    ok = ok and set(pe) == {'0', 'p>>31'} and boolform.equivalent(pe['0'], N(signed)) is True and boolform.equivalent(pe['p>>31'], signed) is True
     if not ok:
-        ctx.report(M3, dm, dm['body'], 'DoMultiplication', 'factor selection / sign extension / product store differ from x * y with hwm 1: y >> 8, 2: y & 0xFF, 3: per unit: ' + t[:300])
+        ctx.report(M3, dm, dm['body'], 'DoMultiplication', 'factor selection / sign extension / product store differ from x * y with hwm 1: y >> 8, 2: y & 0xFF, 3: per unit: '
+                   + str({k[:90]: boolform.show(v)[:90] for k, v in list(got.items())[:4]})[:400])
     # ---- M4
     moda = ctx.fn(I + 'Moda(ModaOp,RegName,EnumAllOperand<CondValue>)')
     men = {e['name']: e['v'] for e in ctx.F['enums']['ModaOp']['enumerators']}
